@@ -631,6 +631,7 @@ def addConsoleLine (s : S) (bytes : List Byte) : Except String S :=
 /-! ### scripted runs (the case language of the harness) -/
 inductive Op where
   | iflagSingle
+  | iflagLine
   | send (bytes : List Byte)
   | read
   | chunk (bytes : List Byte)
@@ -692,6 +693,9 @@ def stepOp (o : Oracle) (r : Run) (op : Op) : Run :=
   | .iflagSingle =>
     if r.s.closed then r
     else r.add { r.s with dec := { r.s.dec with fl := { r.s.dec.fl with single := true } } } []
+  | .iflagLine =>
+    if r.s.closed then r
+    else r.add { r.s with dec := { r.s.dec with fl := { r.s.dec.fl with single := false } } } []
   | .read => doRead o r
   | .chunk b => doRead o { r with s := { r.s with sock := r.s.sock ++ b } }
   | .extract => (doExtract r).1
